@@ -392,3 +392,64 @@ def _make_items(style, parser_fn):
 
 _make_items("google", G.parse_google)
 _make_items("numpy", NP.parse_numpy)
+
+
+# ------------------------------------------------------------------------------------------ trailing family (real Docstring constructor)
+# The value goes through the real Docstring.__init__ (cleaning included): a body that ends with a section header followed by a
+# solver-chosen tail of blanks / newlines / tabs / form feeds - what is left of the closing quotes' line in real source files.
+TRAIL_BODIES = {
+    "google": ["Summary.", "Summary.\n\nArgs:", "Summary.\n\nReturns:", "Summary.\n\nNote:", "Summary.\n\nExamples:", "Summary.\n\n    Args:\n        x: d"],
+    "numpy": ["Summary.", "Summary.\n\nParameters\n----------", "Summary.\n\nReturns\n-------", "Summary.\n\nExamples\n--------", "Summary.\n\nDeprecated\n----------", "    Summary.\n\n    Raises\n    ------"],
+    "sphinx": ["Summary.", "Summary.\n\n:param x: d", "Summary.\n\n:returns:", "Summary.\n\n:param x:", "    Summary.\n\n    :type x: int"],
+}
+TRAIL_ALPHA = " \n\t\x0c"
+
+
+class RealDoc(Docstring):
+    """The real Docstring (real __init__, real cleaning); only `lines` is wrapped to count indexing (termination fuel)."""
+
+    @property
+    def lines(self):
+        if not hasattr(self, "_counter"):
+            self._counter = [0]
+        return FuelList(prop(Docstring, "lines")(self), self._counter)
+
+
+def _make_trailing(style, parser_fn):
+    n = tiered(3, 4)
+
+    @obligation(
+        pid="C12", name=f"{style}_trailing", timeout=tiered(240, 900), path_timeout=60.0,
+        shards=lambda: [(f"body={b!r}", None, [dict(body=i, parent=p) for p in (0, 3)]) for i, b in enumerate(TRAIL_BODIES[style])],
+        pre=lambda body, parent, tail: len(tail) <= n and all(c in TRAIL_ALPHA for c in tail),
+        drives=[parser_fn, Docstring.__init__, prop(Docstring, "lines")],
+        bounds={"body": TRAIL_BODIES[style], "tail": f"every string of length <= {n} over blank, newline, tab, form feed appended after a newline", "parents": [PARENT_NAMES[0], PARENT_NAMES[3]]},
+        value_symbolic=["tail (realised before the constructor runs: inspect.cleandoc is stdlib code)"], selectors=["body, parent (driver-bound)"],
+        stubs=STUBS, must_cover=[f"{style}:trailing-parsed"],
+        grid=lambda seed: [dict(body=i, parent=0, tail=t) for i in range(len(TRAIL_BODIES[style])) for t in ("", "    ", "\n    ", "\x0c")],
+    )
+    def trailing(body: int, parent: int, tail: str) -> bool:
+        """Whatever blank residue follows the last line, constructing and parsing the docstring neither raises nor loops."""
+        from vlib.stubs import realize_value
+        from harness.C08_json import _native
+
+        tail = realize_value(tail)
+
+        def run():
+            par = PARENTS[parent]
+            snap = _snapshot(par)
+            d = RealDoc(TRAIL_BODIES[style][body] + "\n" + tail, parent=par)
+            value = d.value
+            secs = _parse(style, d, False, True, style == "google", style == "google", False, style == "google", style == "google", True)
+            cover(f"{style}:trailing-parsed")
+            return _well_formed(secs, d, value, par, snap)
+
+        return _native(run)
+
+    trailing.__name__ = f"{style}_trailing"
+    return trailing
+
+
+_make_trailing("google", G.parse_google)
+_make_trailing("numpy", NP.parse_numpy)
+_make_trailing("sphinx", SP.parse_sphinx)
